@@ -42,6 +42,7 @@ public:
   { 
     delete[] (char*)buffer;
     buffer = 0;
+    _capacity = 0;
     bufferStart = data;
     bufferEnd = data + length;
   }
@@ -59,7 +60,10 @@ public:
       buffer = (byte*)new char[size + 1];
     }
     else if(!buffer)
+    {
+      bufferStart = bufferEnd = (byte*)&_capacity;
       return *this;
+    }
     Memory::copy(buffer, other.bufferStart, size);
     bufferStart = buffer;
     bufferEnd = buffer + size;
@@ -76,7 +80,10 @@ public:
       buffer = (byte*)new char[size + 1];
     }
     else if(!buffer)
+    {
+      bufferStart = bufferEnd = (byte*)&_capacity;
       return;
+    }
     Memory::copy(buffer, data, size);
     bufferStart = buffer;
     bufferEnd = buffer + size;
@@ -149,13 +156,16 @@ public:
     {
         _capacity = size;
       byte* newBuffer = (byte*)new char[size + 1];
-      Memory::copy(newBuffer, bufferStart, bufferEnd - bufferStart);
+      usize oldSize = bufferEnd - bufferStart;
+      Memory::copy(newBuffer, bufferStart, oldSize < size ? oldSize : size);
       delete[] (char*)buffer;
       bufferStart = buffer = newBuffer;
       bufferEnd = newBuffer + size;
       *bufferEnd = 0;
     }
-    else if(buffer)
+    else if(!buffer)
+      bufferStart = bufferEnd = (byte*)&_capacity;
+    else
     {
       if(bufferStart + size <= buffer + _capacity)
       {
@@ -199,9 +209,11 @@ public:
   {
     if(capacity <= _capacity)
       return;
+    usize size = bufferEnd - bufferStart;
+    if(capacity < size)
+      capacity = size;
     _capacity = capacity;
     byte* newBuffer = (byte*)new char [capacity + 1];
-    usize size = bufferEnd - bufferStart;
     Memory::copy(newBuffer, bufferStart, size);
     delete[] (char*)buffer;
     bufferStart = buffer = newBuffer;
